@@ -1,16 +1,19 @@
 #!/bin/sh
 # tools/tryseed.sh <seed dir with patch.diff + demo.py> <tier> <PROP> [PROP...]
-# Applies the seeded change to /repo, confirms tests pass and the demo fails, runs the given checks, reverts.
+# Applies the seeded change to a scratch worktree of /repo's HEAD (so that /repo itself and any check running against it
+# are not disturbed), confirms tests pass and the demo fails there, runs the given checks with VERIF_REPO=<scratch>, removes it.
+# (Equivalent to: git -C /repo apply patch.diff; ./check ...; git -C /repo checkout -- .  - used when nothing else is running.)
 D="$1"; TIER="$2"; shift 2
-cd /repo || exit 2
-git diff --quiet || { echo "repo dirty"; exit 2; }
-git apply "$D/patch.diff" || { echo "PATCH DOES NOT APPLY"; exit 2; }
+W=/dev/shm/seedtry-$$
+git -C /repo worktree add -q --detach "$W" HEAD || exit 2
+cd "$W" || exit 2
+git apply "$D/patch.diff" || { echo "PATCH DOES NOT APPLY"; cd /; git -C /repo worktree remove --force "$W"; exit 2; }
 T=$(/venv/bin/python -m pytest -q -p no:cacheprovider 2>&1 | tail -1)
 echo "tests with change: $T"
 /venv/bin/python "$D/demo.py" >/dev/null 2>&1; echo "demo with change: exit $?"
 for P in "$@"; do
-  OUT=$(cd /verif && VERIF_BUDGET=${VERIF_BUDGET:-} ./check $P $TIER 2>&1); RC=$?
+  OUT=$(cd /verif && VERIF_REPO="$W" VERIF_JOBS=${VERIF_JOBS:-8} ./check $P $TIER 2>&1); RC=$?
   echo "check $P $TIER: exit $RC :: $(echo "$OUT" | grep -m2 '^violation:' | cut -c1-260)"
 done
-git checkout -- . 
+cd /repo; git worktree remove --force "$W"
 /venv/bin/python "$D/demo.py" >/dev/null 2>&1; echo "demo on clean tree: exit $?"
